@@ -1,4 +1,4 @@
-(* C06: extracted models of prove/pn.go (Pn.v, no PN^2) and prove/dfpn.go (Dfpn.v) vs the solvers.
+(* C06: extracted models of prove/pn.go (Pn.v without PN^2, Pn2.v with it) and prove/dfpn.go (Dfpn.v) vs the solvers.
    L1 = verdict + returned move; L2 = proof/disproof numbers, depth, counters. *)
 open Common
 let iters = lazy (nat_of_int 200000)
@@ -14,6 +14,14 @@ let run _args =
        | "pn", [mn; pre; md] ->
          let ((((root, st), res), mv), why) =
            PnRun.pn_run (Lazy.force iters) (Lazy.force dfuel) (n_of_string mn) (pre = "1") (z_of_string md) p in
+         (* the PN-squared model with its switch off must compute the same (tree, counters, verdict, move, stop reason)
+            as Pn.v, and no second-level trace *)
+         let ((((root2, s2), res2), mv2), why2) =
+           Pn2Run.pn2_run (Lazy.force iters) (Lazy.force dfuel) (Lazy.force iters) (Lazy.force dfuel)
+             (n_of_string mn) (pre = "1") (z_of_string md) false p in
+         if not (root2 = root && s2.Pn2.s_st = st && res2 = res && mv2 = mv && why2 = why
+                 && int_of_n s2.Pn2.s_calls = 0 && int_of_n s2.Pn2.s_searched = 0 && int_of_n s2.Pn2.s_limits = 0)
+         then ("MODEL-PN2-SWITCHED-OFF-DIFFERS-FROM-PN", None, None) else
          (match int_of_n why with
           | 1 -> ("PANIC", None, None)
           | 2 -> ("MODEL-OUT-OF-FUEL", None, None)
@@ -23,6 +31,24 @@ let run _args =
             let l2 = S.concat " " (L.map string_of_n
               [Pn.n_phi root; Pn.n_delta root; Pn.n_pdepth root; st.Pn.p_nodes; st.Pn.p_proved; st.Pn.p_disproved;
                st.Pn.p_dropped; st.Pn.p_expanded; st.Pn.p_maxdepth]) in
+            (l1, Some l2, None))
+       | "pn", [mn; pre; md; "pn2"] ->
+         (* PN-squared: Pn2.v with the constant pn2Threshold of pn.go; the trace of the second level is part of L2 *)
+         let ((((root, s), res), mv), why) =
+           Pn2Run.pn2_run (Lazy.force iters) (Lazy.force dfuel) (Lazy.force iters) (Lazy.force dfuel)
+             (n_of_string mn) (pre = "1") (z_of_string md) true p in
+         (match int_of_n why with
+          | 1 -> ("PANIC", None, None)
+          | 2 -> ("MODEL-OUT-OF-FUEL", None, None)
+          | 3 -> ("MODEL-SATURATED", None, None)
+          | 4 -> ("MODEL-PN2-WITHOUT-EXPANSION", None, None)
+          | 5 -> ("MODEL-PN2-BAD-CURRENT", None, None)
+          | _ ->
+            let st = s.Pn2.s_st in
+            let l1 = verdict (int_of_n res) ^ " " ^ enc_move mv in
+            let l2 = S.concat " " (L.map string_of_n
+              [Pn.n_phi root; Pn.n_delta root; Pn.n_pdepth root; st.Pn.p_nodes; st.Pn.p_proved; st.Pn.p_disproved;
+               st.Pn.p_dropped; st.Pn.p_expanded; st.Pn.p_maxdepth; s.Pn2.s_calls; s.Pn2.s_searched; s.Pn2.s_limits]) in
             (l1, Some l2, None))
        | "dfpn", [entries; att] ->
          let a = (match att with "W" -> 1 | "B" -> 2 | _ -> 0) in
